@@ -1,7 +1,7 @@
 (** Proofs for C02 (column reader part): the model of the repaired column reader delivers, for every
     history and every cut of a chunk into pages, exactly what the position-in-a-list specification says. *)
 From Coq Require Import List ZArith Bool Arith Lia ZifyBool ZifyNat ZifyN.
-From Carquet Require Import Base.Res Reader.CursorSpec Reader.CursorModel.
+From Carquet Require Import Base.Res Gen.Reader_gen Reader.CursorSpec Reader.CursorModel.
 Import ListNotations.
 Local Open Scope Z_scope.
 
@@ -642,6 +642,9 @@ Qed.
 
 (* ------------------------------------------------------------------ carquet_column_skip *)
 
+Lemma skip_chunk_bounds : 0 < Reader_skip_chunk < 2^31.
+Proof. unfold Reader_skip_chunk. lia. Qed.
+
 Lemma skip_loop_spec fuel : forall st p0 sk k,
   Inv st (p0 + sk) -> (sk <= Z.to_nat k)%nat -> 0 < k -> (Z.to_nat k - sk < fuel)%nat ->
   let c := Nat.min (Z.to_nat k) (total - p0) in
@@ -651,8 +654,9 @@ Proof.
   pose proof HI as (_ & _ & _ & Hle & Hrem & _).
   cbn [skip_loop]. rewrite Hrem.
   destruct ((Z.of_nat sk <? k) && (Z.of_nat (total - (p0 + sk)) >? 0)) eqn:Econd.
-  - set (ts := if k - Z.of_nat sk >? 1024 then 1024 else k - Z.of_nat sk).
-    assert (Hts : 0 < ts < 2^31) by (subst ts; destruct (k - Z.of_nat sk >? 1024) eqn:Eg; lia).
+  - pose proof skip_chunk_bounds as Hch.
+    set (ts := if k - Z.of_nat sk >? Reader_skip_chunk then Reader_skip_chunk else k - Z.of_nat sk).
+    assert (Hts : 0 < ts < 2^31) by (subst ts; destruct (k - Z.of_nat sk >? Reader_skip_chunk) eqn:Eg; lia).
     destruct (read_batch_spec st (p0 + sk) ts false HI Hts) as (st1 & Er & HI1).
     cbn zeta in Er. rewrite Er. cbn [br_ret].
     set (c1 := Nat.min (Z.to_nat ts) (total - (p0 + sk))) in *.
@@ -661,7 +665,7 @@ Proof.
     rewrite <- Nat2Z.inj_add.
     apply IH; try lia.
     + rewrite Nat.add_assoc. exact HI1.
-    + subst c1 ts. destruct (k - Z.of_nat sk >? 1024) eqn:Eg; lia.
+    + subst c1 ts. destruct (k - Z.of_nat sk >? Reader_skip_chunk) eqn:Eg; lia.
   - assert (Ec : sk = c) by (subst c; lia). rewrite <- Ec. exists st. split; [reflexivity|exact HI].
 Qed.
 
